@@ -151,7 +151,10 @@ Offset(o) ==
      ELSE IF Len(hh) > 2 /\ AllDigits(hh) THEN [ok |-> FALSE, judged |-> FALSE, min |-> 0]   \* zero-padded beyond hh: left open
      ELSE IF Len(hh) \in 1..2 /\ AllDigits(hh) /\ (dot = 0 \/ (Len(mm) = 2 /\ AllDigits(mm)))
      THEN LET tot == sgn * (Num(hh) * 60 + Num(mm)) IN
-          [ok |-> TRUE, judged |-> tot >= -720 /\ tot <= 840 /\ Num(mm) < 60, min |-> tot]
+          \* whole hours beyond -12 .. +14 are beyond the declared limits of a GMT offset: refused; within those hours
+          \* the part past -12:00 / +14:00 and minutes >= 60 are left open
+          IF sgn * Num(hh) < -12 \/ sgn * Num(hh) > 14 THEN [ok |-> FALSE, judged |-> TRUE, min |-> 0]
+          ELSE [ok |-> TRUE, judged |-> tot >= -720 /\ tot <= 840 /\ Num(mm) < 60, min |-> tot]
      ELSE [ok |-> FALSE, judged |-> TRUE, min |-> 0]
 
 \* parsed fields of a date-time / time text
